@@ -5,7 +5,7 @@ import random
 import e2e
 from core import run_impl, run_model
 
-GEN_FILES = ["SolveBrute.v", "EntryPoint.v", "ModelFunctions.v", "CCV.v", "DiscreteNoShocks.v", "WeightFunc.v"]
+GEN_FILES = ["SolveBrute.v", "EntryPoint.v", "ModelFunctions.v", "CCV.v", "DiscreteNoShocks.v", "WeightFunc.v", "ChoiceAxes.v", "SolveDiscrete.v"]
 TRUSTED = e2e.TRUSTED
 ASSUMPTIONS = e2e.ASSUMPTIONS + [
     "'does not depend on whether JIT compilation is requested' is runtime behaviour: covered by solving every other model with jit=False, not by the theorems",
